@@ -93,7 +93,7 @@ def check_cfg(ctx, fx, cfg):
             if "Weak<dyn channel::%s<" % tr in st:
                 needed.setdefault(tr, []).append((f["def"], t["l"]))
                 n_sites += 1
-    ctx.floor("R15.1", "Weak::upgrade sites on channel halves (%s)" % cfg, n_sites, 12 if cfg != "bare" else 10)
+    ctx.floor("R15.1", "Weak::upgrade sites on channel halves (%s)" % cfg, n_sites, 6)
     ctx.require(set(needed) == {"TxFn", "ForceTxFn"}, "R15.1", "needed-set@" + cfg, "needed set changed: %s" % sorted(needed), detail={k: len(v) for k, v in needed.items()})
     for k in own.STRONG_KINDS:
         o = fx.owns_of(k, "adt")
@@ -150,7 +150,7 @@ def check_cfg(ctx, fx, cfg):
             n += 1
             inst = "%s in %s" % (kind, f["def"])
             ctx.require(not bad, "R15.2", inst + "@" + cfg, "a handle is built from something other than the handle it was derived from: operands %s" % bad, fn=f["def"], site=loc, detail={"operands_checked": checked})
-    ctx.floor("R15.2", "handle-building sites (%s)" % cfg, n, 20)
+    ctx.floor("R15.2", "handle-building sites (%s)" % cfg, n, 10)
     # R15.4 self-stop / self-restart succeed whenever the forcing half can be upgraded: Ok is reported only for a request
     # that was actually submitted, an error only if the upgrade or the submission failed
     from props.c04 import check_submit_on_ok
